@@ -12,27 +12,7 @@ Obs == JsonDeserialize(IOEnv.OBS_FILE)
 Cases == Obs.cases
 N == Len(Cases)
 
-Ok(c) ==
-  LET op == c[1] sg == c[2] = 1
-      l1 == c[3] r1 == c[4] n1 == c[5] l2 == c[6] r2 == c[7] n2 == c[8]
-      lo == c[11] ro == c[12] no == c[13]
-      base == MinI(MinI(r1, r2), ro)
-      inRange == no >= MinRaw(sg, lo, ro) /\ no <= MaxRaw(sg, lo, ro)
-  IN
-  CASE op = "add" -> inRange /\ Scale(no, ro, base) = AddExact(n1, r1, n2, r2, base)
-    [] op = "sub" ->
-         LET exact == SubExact(n1, r1, n2, r2, base) IN
-         IF sg \/ exact >= 0 THEN inRange /\ Scale(no, ro, base) = exact
-         ELSE \* "UFixed subtraction wraps modulo the result range when the difference is negative"
-              inRange /\ ro <= base + 0 /\ Scale(no, ro, base) = exact + P2(lo + 1 - base)
-    [] op = "mul" -> inRange /\ (LET b2 == MinI(r1 + r2, ro) IN Scale(no, ro, b2) = Scale(MulExact(n1, r1, n2, r2), r1 + r2, b2))
-    [] op = "resize" -> lo = l2 /\ ro = r2 /\ no = Resize(sg, n1, r1, l2, r2, c[9] = 1, c[10] = 1)
-    [] op = "conv" -> \* construction from another format: the number is preserved whenever it is representable
-         LET exactRaw == IF r2 <= r1 THEN n1 * P2(r1 - r2) ELSE -999999
-             representable == r2 <= r1 /\ exactRaw >= MinRaw(sg, l2, r2) /\ exactRaw <= MaxRaw(sg, l2, r2)
-         IN ~representable \/ (lo = l2 /\ ro = r2 /\ no = exactRaw)
-    [] op = "eq" -> (no = 1) <=> (Scale(n1, r1, MinI(r1, r2)) = Scale(n2, r2, MinI(r1, r2)))
-    [] OTHER -> FALSE
+Ok(c) == CaseOk(c)
 
 ASSUME \A i \in 1..N : Ok(Cases[i]) \/ PrintT(<<"VIOL", i, Cases[i][1]>>)
 ASSUME PrintT(<<"STAT", "cases", N>>)
